@@ -176,7 +176,9 @@ def compile_forms(
     p = ffcx.options.get_options(options)
 
     # If requested, replace bi-linear forms by their diagonal part
+    # (in a copy: the caller's list must keep the forms it was given)
     if p["part"] == "diagonal":
+        forms = list(forms)
         for i, form in enumerate(forms):
             arguments = form.arguments()
             numbers = tuple(sorted(set(a.number() for a in arguments)))
